@@ -20,12 +20,14 @@ theorem C11_cbrt_obs_factor (c : Ctx) (x : Dec) :
     cases h1 : scaleLoop (fun z => decide (z.cmp decOneEighth < 0)) decEight 400000 { c := { baseCtx with prec := c.prec * 2 + 2 } } x.absD 0 with
     | none => simp
     | some r1 =>
-      obtain ⟨ed, z, down⟩ := r1
+      rcases r1 with er | ⟨ed, z, down⟩
+      · simp
       simp only []
       cases h2 : scaleLoop (fun z => decide (z.cmp decOne > 0)) decOneEighth 400000 ed z 0 with
       | none => simp
       | some r2 =>
-        obtain ⟨ed2, z2, up⟩ := r2
+        rcases r2 with er | ⟨ed2, z2, up⟩
+        · simp
         simp only []
         generalize (if down > up then mulN decHalf (down - up) _ _ else mulN decTwo (up - down) _ _) = r5
         generalize cbrtIter _ _ _ _ _ _ _ _ = r
